@@ -23,7 +23,7 @@ theorem data_applyInfo_ne {idx : Nat} {parent : String} (l : List InfoStmt) {j :
     | cname n =>
       unfold applyInfo at h
       obtain ⟨s1, h1, h⟩ := bind_ok h
-      rw [ih h, data_rename h1, data_updInst_ne _ _ _ _ hj]
+      rw [ih h, data_renameStrict h1, data_updInst_ne _ _ _ _ hj]
     | attr k v => unfold applyInfo at h; rw [ih h, data_updInst_ne _ _ _ _ hj]
     | param k v => unfold applyInfo at h; rw [ih h, data_updInst_ne _ _ _ _ hj]
 
